@@ -275,6 +275,8 @@ def _find_const_arg(q, how):
     """the constant the library put into the emitted lambda"""
     lam = q.args[1]
     body = lam.body
+    if isinstance(body, ast.Compare):          # the Where form of the capture case: (e.x, v) == e.y
+        body = body.left
     if how == "default":
         return body.args[0] if isinstance(body, ast.Call) and body.args else None
     return body.elts[1] if isinstance(body, ast.Tuple) and len(body.elts) == 2 else None
@@ -283,26 +285,27 @@ def _find_const_arg(q, how):
 def check_lambda_constants(ctx, scalars):
     """declared defaults (_fill_in_default_arguments -> as_literal) and captured variables
     (_rewrite_captured_vars -> as_literal), then check_ast"""
-    for v in scalars:
-        for how, f in (("default", L.impl_default), ("capture", L.impl_capture)):
-            ctx.evaluations += 1
-            st, q = f(v)
-            legal = L.transportable_py(v)
-            bad = None
-            if legal:
-                if st != "ok":
-                    bad = "raises %s" % q
-                else:
-                    c = _find_const_arg(q, how)
-                    if not (isinstance(c, ast.Constant) and L.exact_eq(c.value, v)):
-                        bad = "emitted %s" % (ast.dump(c)[:120] if isinstance(c, ast.AST) else repr(c))
-            else:
-                if not (st == "exc" and q == "ValueError"):
-                    bad = "a %s constant must be refused with ValueError, got %s" % (type(v).__name__, q if st == "exc" else "a query")
-            ctx.count("lambda_constant", "%s:%s" % (how, "embedded" if st == "ok" else q))
-            if bad:
-                ctx.fail("failing-input", "%s value %s in Select(lambda ...): %s" % (how, _vrepr(v)[:100], bad),
-                         _witness(how, v), key=_key(how, v))
+    for i, v in enumerate(scalars):
+      for op in (("Select", "Where", "SelectMany") if i % 3 == 0 or not L.transportable_py(v) else ("Select", "Where", "SelectMany")[i % 3:i % 3 + 1]):
+          for how, f in (("default", L.impl_default), ("capture", L.impl_capture)):
+              ctx.evaluations += 1
+              st, q = f(v, op)
+              legal = L.transportable_py(v)
+              bad = None
+              if legal:
+                  if st != "ok":
+                      bad = "raises %s" % q
+                  else:
+                      c = _find_const_arg(q, how)
+                      if not (isinstance(c, ast.Constant) and L.exact_eq(c.value, v)):
+                          bad = "emitted %s" % (ast.dump(c)[:120] if isinstance(c, ast.AST) else repr(c))
+              else:
+                  if not (st == "exc" and q == "ValueError"):
+                      bad = "a %s constant must be refused with ValueError, got %s" % (type(v).__name__, q if st == "exc" else "a query")
+              ctx.count("lambda_constant", "%s:%s" % (how, "embedded" if st == "ok" else q))
+              if bad:
+                  ctx.fail("failing-input", "%s value %s in %s(lambda ...): %s" % (how, _vrepr(v)[:100], op, bad),
+                           _witness(how, v), key=_key(how + ("" if op == "Select" else op), v))
 
 
 # ---------------------------------------------------------------- part 4: check_ast
